@@ -101,11 +101,11 @@ def _check(prop, tier, seed, replay, work, t0):
         n, units = (48, 5) if tier == "quick" else (400, 8)
         drive(drv, work, "refuse", ["-cluster", "-refuse", "-id-base", "3000000", "-seed", str(seed), "-n", str(n * 2), "-max-units", str(units)], stats)
         drive(drv, work, "routable", ["-cluster", "-id-base", "4000000", "-seed", str(seed + 77), "-n", str(n // 2), "-max-units", str(units), "-crash-stride", "1000000"], stats)
-        expl = ("%d of the %d units enumerated by UnitRoute.tla (1-2 commands x 1-2 keys over 11 brace / non-ASCII key shapes; plain, key-counted (EVAL numkeys ... arg, the argument looking like a key of another slot) and opaque commands) each replayed "
+        expl = ("%d of the %d units enumerated by UnitRoute.tla (1-2 commands x 1-2 keys over 11 brace / non-ASCII key shapes; plain, key-counted (EVAL numkeys ... arg, the argument looking like a key of another slot), dynamic (a module's command whose keys the target names on COMMAND GETKEYS) and opaque commands) each replayed "
                 "after one routable unit; generated streams (<= %d units, tags with UTF-8 and non-UTF-8 bytes, six brace arrangements per tag) with and "
-                "without an unroutable last unit of 8 kinds; 3 replay modes; two-node cluster fake that checks CROSSSLOT itself" % (len(lines), druns[0]["units"], units))
+                "without an unroutable last unit of 10 kinds; 3 replay modes; two-node cluster fake that checks CROSSSLOT itself" % (len(lines), druns[0]["units"], units))
         notcov = ["transactions reduced by filters (no filter is configured in these runs)",
-                  "COMMAND GETKEYS answers: the fake reports no keys for an unknown command, so the dynamic resolver path always ends in refusal"]
+                  "COMMAND GETKEYS answers differing between the nodes of the cluster (every node of the fake knows the same module)"]
     trace = os.path.join(work, "trace.ndjson")
     viol, tr = vlib.tlc_trace([os.path.join(SPEC, "trace", "TraceBisync.tla")], "TraceBisync", trace, work, timeout=6000)
     violations, known = [], []
